@@ -30,7 +30,6 @@ Definition sync_item_eqb (a b : sync_item) : bool :=
   match a, b with
   | Updated p e s, Updated p' e' s' => String.eqb p p' && String.eqb e e' && (s =? s')
   | Deleted p, Deleted p' => String.eqb p p'
-  | Skipped, Skipped => true
   | _, _ => false
   end.
 
@@ -79,8 +78,15 @@ Definition coll_codec_ok (c : coll) : bool := path_ok (c_path c) && int64_ok (c_
 
 (** the header code paths round-trip the entity tag and the instant *)
 Definition hdr_meta_ok (o : obj) : bool :=
-  (str_empty (o_etag o) || opt_str_is (etag_dec hd (etag_enc cd (o_etag o))) (o_etag o))
-  && (is_zero_time o || match time_dec hd (time_enc hd (o_sec o)) with Some z => z =? o_sec o | None => false end).
+  (str_empty (o_etag o)
+   || (negb (str_empty (etag_enc cd (o_etag o))) && opt_str_is (etag_dec hd (etag_enc cd (o_etag o))) (o_etag o)))
+  && (is_zero_time o
+      || (negb (str_empty (time_enc hd (o_sec o)))
+          && match time_dec hd (time_enc hd (o_sec o)) with Some z => z =? o_sec o | None => false end)).
+(** the Location header round-trips the path the backend answered *)
+Definition hdr_loc_ok (o : obj) : bool :=
+  str_empty (o_path o)
+  || (negb (str_empty (href_enc hd (o_path o))) && opt_str_is (href_dec hd (href_enc hd (o_path o))) (o_path o)).
 
 (** * What a client call should return *)
 Definition pos_or_zero (z : Z) : Z := if 0 <? z then z else 0.
@@ -204,8 +210,7 @@ Definition check_put (fl : flavor) (reqpath data : string) (ret : outcome)
                    end) obs_client;
      applies := match pay_enc cd fl data with Some b => opt_str_is (pay_dec cd fl b) data | None => false end
                 && match ret with
-                   | Found o => (str_empty (o_path o) || opt_str_is (href_dec hd (href_enc hd (o_path o))) (o_path o))
-                                && hdr_meta_ok o
+                   | Found o => hdr_loc_ok o && hdr_meta_ok o
                    | Failed c _ _ => negb (Z.quot (fail_code c) 100 =? 2)
                    end;
      finding := false |}.
